@@ -1,4 +1,5 @@
 import MpfVerif.Lemmas.BallLedger
+import MpfVerif.Lemmas.BallPromise
 /-!
 # C05 — ball requests make progress: no lost or stuck ejects (PARTIAL: theorems about the ledger protocol)
 
@@ -293,5 +294,61 @@ example : (run { n := 3, pf := [false, false, true], cap := [3, 1, 0], maxT := [
 example : devMeasure { n := 2, pf := [false, true], cap := [3, 0], maxT := [3, 0], edges := [(0, 1)], missing := 1 }
     { (initSt { n := 2, pf := [false, true], cap := [3, 0], maxT := [3, 0], edges := [(0, 1)], missing := 1 } [1, 0]) with
       cur := [some 1, none], phase := [.waitTarget, .idle] } 0 = 29 := by decide
+
+/-! ## Game-level requests: ball start, ball save (eject_delay), multiball — the promise ledger (Model/BallPromise.lean) -/
+
+section Promise
+open MpfVerif.BallPromise
+
+/-- **no announced ball is dropped between the announcement and the playfield**: for every history of ball starts,
+multiball starts / add-a-balls / shoot-agains, ball saves (with any `eject_delay`) and delay expiries, every ball announced
+to the player has either been requested from the playfield (`Playfield.add_ball`) or sits in a delayed `_add_balls` call that
+is still pending (`over` counts the balls a multiball asked for beyond what `balls_in_play` could hold: the ledger is an
+equation, and in particular `promised ≤ requested + pending`). -/
+theorem promises_requested_or_pending (d : Nat) (ops : List BallPromise.Op) (s : BallPromise.St)
+    (h : BallPromise.run { delay := d } ops = some s) :
+    s.promised + s.over = s.requested + BallPromise.total s.pending :=
+  run_inv ops { delay := d } s (by simp [BallPromise.Inv, BallPromise.total]) h
+
+/-- ... hence once no delayed eject is pending, every ball ever announced has been requested for the playfield (from there
+on the request is the ball ledger's: `no_stuck_state`, `progress_measure`). -/
+theorem all_delays_fired_all_requested (d : Nat) (ops : List BallPromise.Op) (s : BallPromise.St)
+    (h : BallPromise.run { delay := d } ops = some s) (hp : s.pending = []) :
+    s.promised ≤ s.requested ∧ (s.over = 0 → s.promised = s.requested) := by
+  have := promises_requested_or_pending d ops s h
+  simp only [hp, BallPromise.total] at this
+  omega
+
+/-- a pending delayed eject can always fire (nothing in the ball save disables it), and firing it requests exactly the
+balls that were announced with it. -/
+theorem pending_save_can_fire (s : BallPromise.St) (k : Nat) (r : List Nat) (h : s.pending = k :: r) :
+    BallPromise.step s (.fire k) = some { s with requested := s.requested + k, pending := r } := by
+  simp [BallPromise.step, h, removeFirst_head]
+
+/-- **the pending list drains**: letting the pending delays fire one after the other (each fires: C13) is a run of the model
+that ends with nothing pending and, from any state satisfying the ledger equation, with `promised + over = requested`. -/
+theorem pending_saves_drain (l : List Nat) (s : BallPromise.St) (h : s.pending = l) :
+    BallPromise.run s (l.map BallPromise.Op.fire) = some (fireAll s) ∧ (fireAll s).pending = [] ∧
+    (s.promised + s.over = s.requested + BallPromise.total s.pending →
+      (fireAll s).promised + (fireAll s).over = (fireAll s).requested) := by
+  refine ⟨?_, rfl, fun hi => by simpa [fireAll] using hi⟩
+  induction l generalizing s with
+  | nil => cases s; simp_all [BallPromise.run, fireAll, BallPromise.total]
+  | cons k r ih =>
+    simp only [List.map_cons, BallPromise.run, pending_save_can_fire s k r h]
+    rw [ih _ rfl]
+    simp [fireAll, h, BallPromise.total, Nat.add_assoc]
+
+/-- the seeded defect as a witness: were the delayed eject added under a NAME (a second `delay.add` with that name replaces
+the first), two saves inside one eject_delay window would leave one announced ball that is never requested. -/
+theorem named_delay_loses_save_witness :
+    (runNamed { delay := 2000 } [.save 1, .save 1, .fire 1]).map (fun s => (s.promised, s.requested, s.pending)) =
+      some (2, 1, []) := by decide
+
+/-- non-vacuity: ball start, multiball add, two saves inside one window, both delays fire, four balls delivered -/
+example : (BallPromise.run { delay := 2000 } [.promise 1, .promise 1, .overask 1, .save 1, .save 1, .fire 1, .fire 1, .deliver, .deliver,
+    .deliver, .deliver]).map (fun s => (s.promised, s.over, s.requested, s.pending, s.delivered)) = some (4, 1, 5, [], 4) := by decide
+
+end Promise
 
 end MpfVerif.C05
